@@ -8,6 +8,7 @@ import (
 	"fmt"
 	"os"
 	"path/filepath"
+	"regexp"
 	"sort"
 	"strconv"
 	"strings"
@@ -204,7 +205,9 @@ func propertyIDs(verif string) []string {
 		if strings.TrimSpace(l) == "" {
 			continue
 		}
-		var p struct{ ID string `json:"id"` }
+		var p struct {
+			ID string `json:"id"`
+		}
 		if json.Unmarshal([]byte(l), &p) == nil && p.ID != "" {
 			ids = append(ids, p.ID)
 		}
@@ -294,6 +297,8 @@ func runCheck(repo, verif, prop, tier string) int {
 	bySolver := map[string]int{}
 	solverTime := 0.0
 	nontrivial := map[string]bool{}
+	unreachable := loadUnreachable(verif)
+	nUnreach := 0
 	for _, o := range res.obls {
 		if n, ok := stableName(o); ok {
 			present[n] = true
@@ -302,8 +307,14 @@ func runCheck(repo, verif, prop, tier string) int {
 		if o.Kind == "cover" {
 			nCover++
 			if o.Status == "unsat" {
+				if why, ok := unreachable[o.Name]; ok {
+					// reviewed: this return cannot be taken under the function's contract (dead or excluded code)
+					o.Clause += " — reviewed unreachable: " + why
+					nUnreach++
+					continue
+				}
 				nVacuous++
-				o.Clause = "vacuity: " + o.Clause + " — the assumptions of this function are contradictory or its exit is unreachable"
+				o.Clause = "vacuity: " + o.Clause + " — the assumptions of this function are contradictory or this point is unreachable"
 				failed = append(failed, o)
 			}
 			continue
@@ -320,8 +331,19 @@ func runCheck(repo, verif, prop, tier string) int {
 			failed = append(failed, o)
 		}
 	}
+	// An expected obligation counts as still generated when an obligation with the same function, callee and label
+	// exists at another call-site ordinal (a harmless refactoring that adds or removes a call moves the ordinals);
+	// frame obligations exist per heap the code touches, so a frame that is no longer generated means the code
+	// touches less — never a violation.
+	presentNorm := map[string]bool{}
+	for n := range present {
+		presentNorm[normSiteName(n)] = true
+	}
 	for _, n := range expected {
-		if !present[n] {
+		if strings.Contains(n, "#frame:") || strings.Contains(n, "#loopframe") {
+			continue
+		}
+		if !present[n] && !presentNorm[normSiteName(n)] {
 			o := &Obligation{Name: "gone:" + n, Kind: "gone", Props: []string{prop}, Status: "missing", Clause: "an obligation generated on the reference tree is no longer generated: the code it was about has disappeared or can no longer be bound"}
 			nObl++
 			failed = append(failed, o)
@@ -409,28 +431,28 @@ func runCheck(repo, verif, prop, tier string) int {
 		standinEv = append(standinEv, map[string]any{"name": s.Name, "function": s.Function, "bound": s.Bound, "cases": s.Cases, "violations": len(s.Violations), "label": "bounded (not counted in obligations/discharged)", "seconds": round2(s.Seconds), "broken": s.Broken})
 	}
 	cov := map[string]any{
-		"obligations":              nObl,
-		"discharged":               nDis,
-		"checker_cmd":              fmt.Sprintf("/verif/bin/check %s %s  (govc: go/ssa of /repo -> SMT-LIB; z3-new 5.1.0, cvc5 1.0.3, z3 4.8.12)", prop, tier),
-		"trusted_base":             trustedBase(),
-		"evaluations":              len(res.obls),
-		"distinct_nontrivial":      len(nontrivial),
-		"rule":                     "one case per generated obligation (pre/post/inv/frame/site/lemma/safety/bind) of the functions under contract for this property; non-trivial = needed an SMT solver (not closed by syntactic simplification), distinct by obligation name",
-		"samples":                  samples,
-		"functions_under_contract": res.functions,
+		"obligations":                nObl,
+		"discharged":                 nDis,
+		"checker_cmd":                fmt.Sprintf("/verif/bin/check %s %s  (govc: go/ssa of /repo -> SMT-LIB; z3-new 5.1.0, cvc5 1.0.3, z3 4.8.12)", prop, tier),
+		"trusted_base":               trustedBase(),
+		"evaluations":                len(res.obls),
+		"distinct_nontrivial":        len(nontrivial),
+		"rule":                       "one case per generated obligation (pre/post/inv/frame/site/lemma/safety/bind) of the functions under contract for this property; non-trivial = needed an SMT solver (not closed by syntactic simplification), distinct by obligation name",
+		"samples":                    samples,
+		"functions_under_contract":   res.functions,
 		"trusted_function_contracts": res.trustedFns,
-		"by_kind":                  byKind,
-		"by_solver":                bySolver,
-		"solver_time_s":            round2(solverTime),
-		"bounded_standins":         standinEv,
-		"assumed_contracts_used":   assumedList,
-		"dropped_by_translation":   droppedByTranslation(),
-		"vacuity":                  map[string]any{"cover_queries": nCover, "vacuous": nVacuous, "expected_obligations": len(expected), "missing_expected": countKind(failed, "gone")},
-		"known_findings_reported":  len(knownHit),
-		"contract_files":           cf,
-		"per_solver_timeout_s":     timeout,
-		"cross_solver_agreement":   tier == "thorough",
-		"generator_notes":          w.notes,
+		"by_kind":                    byKind,
+		"by_solver":                  bySolver,
+		"solver_time_s":              round2(solverTime),
+		"bounded_standins":           standinEv,
+		"assumed_contracts_used":     assumedList,
+		"dropped_by_translation":     droppedByTranslation(),
+		"vacuity":                    map[string]any{"reviewed_unreachable_returns": nUnreach, "cover_queries": nCover, "vacuous": nVacuous, "expected_obligations": len(expected), "missing_expected": countKind(failed, "gone")},
+		"known_findings_reported":    len(knownHit),
+		"contract_files":             cf,
+		"per_solver_timeout_s":       timeout,
+		"cross_solver_agreement":     tier == "thorough",
+		"generator_notes":            w.notes,
 	}
 	ev := map[string]any{
 		"property_id": prop, "tier": tier, "seed": seed, "level": "proof", "coverage": cov,
@@ -550,4 +572,30 @@ func writeReplay(w *World, repo, verif, prop string, o *Obligation, path string)
 	}
 	os.WriteFile(path, []byte(b.String()), 0o644)
 	return confirmed
+}
+
+var siteOrdinalRe = regexp.MustCompile(`(#site@[^#]*)#\d+:`)
+
+// normSiteName drops the call-site ordinal from a site obligation's name.
+func normSiteName(n string) string {
+	return siteOrdinalRe.ReplaceAllString(n, "$1:")
+}
+
+// loadUnreachable reads contracts/unreachable_returns.txt: "<cover obligation name> :: <reason>" per line — return
+// statements that were reviewed as not reachable under their function's contract on the reference tree.
+func loadUnreachable(verif string) map[string]string {
+	out := map[string]string{}
+	b, err := os.ReadFile(filepath.Join(verif, "contracts", "unreachable_returns.txt"))
+	if err != nil {
+		return out
+	}
+	for _, l := range strings.Split(string(b), "\n") {
+		l = strings.TrimSpace(l)
+		if l == "" || strings.HasPrefix(l, "#") {
+			continue
+		}
+		name, why, _ := strings.Cut(l, "::")
+		out[strings.TrimSpace(name)] = strings.TrimSpace(why)
+	}
+	return out
 }
